@@ -162,6 +162,7 @@ _UF = {
     np.negative: lambda a: -FV.lift(a), np.maximum: fv_max, np.minimum: fv_min, np.isfinite: fv_isfinite,
     np.logical_not: lambda a: ~a, np.logical_and: lambda a, b: a & b, np.logical_or: lambda a, b: a | b,
     np.isinf: lambda a: FB(z3.fpIsInf(FV.lift(a).t)), np.isnan: lambda a: FB(z3.fpIsNaN(FV.lift(a).t)),
+    np.signbit: lambda a: FB(z3.fpIsNegative(FV.lift(a).t)), np.invert: lambda a: ~a,
     np.log: _opaque, np.true_divide: _opaque, np.sqrt: _opaque,
 }
 
